@@ -11,52 +11,51 @@ from vlib import core
 TRUST = ("Lean 4.33 kernel; axioms at most propext/Classical.choice/Quot.sound (audited per run by #audit_module); "
          "hand-written model tied to the C++ by the correspondence harness (differential, generator-bounded); ")
 MANIFEST = dict(
-  text=("Theorems (Props/C02.lean) in exact arithmetic over Rat about the executable model Model/LinSolve.lean, for every size n, every "
-        "matrix / right-hand side, every triangular tag and side (no bound anywhere): trsv_correct / trsm_correct (no zero on a divided "
-        "diagonal => T x = b, x T = b, T X = B, X T = B; T = the triangle the tag denotes, other triangle never read); trsv_unique; "
-        "potrf_correct (returns 0 => L L^T = A on the stored triangle, other triangle untouched), potrf_upper_correct, potrf_info_spec "
-        "(returns k+1 => first k pivots positive, Schur pivot k <= 0); getrf_correct (no exception => P A = L U for the recorded "
-        "transposition sequence); solve_eq_of_factorisation and its instance solve_spd_correct (solve(A,b,symm_pos_def) returns x with "
-        "A x = b), solve_spd_unique, solve_lu_correct (solve(A,b,indefinite_full_rank,left) returns x with A x = b), solve_lu_right_correct and solve_spd_right_correct (the right-sided vector solves return x with x A = b); inv_prod_is_solve / inv_prod_is_solve_spd (explicit inverse times b = the solve call); "
-        "cholUpdate_correct (rank-one update of a Cholesky factor, model updStep/cholUpdate written statement by statement after cholesky_decomposition::update: "
-        "for every size, every lower factor with non-zero diagonal, every update vector incl. zero components anywhere, every beta != 0 and alpha with an exact root: "
-        "no exception => L' L'^T = alpha L L^T + beta v v^T) and cholUpdate_scale_correct (beta = 0); the expression rewrites of solve.hpp: row_of_left_solve / "
-        "lazy_row_left_trsm (row(solve(A,B,left),i) = B^T solve(A,e_i,right)), row_of_left_solve_wrong_side_witness (the side matters), prod_of_right_solve, prod_of_left_trsm. The square "
-        "root is a parameter r required to be exact on the values that occur (SqrtSpec; hroot for the update). The model is tied to remora's default kernels "
-        "by an exact correspondence (driver drv_c02 in Rat vs C++ doubles printed exactly) on systems built from integer factors with "
-        "power-of-two diagonals, sizes 1..70 across the block sizes 4/16/20/32/64, both orientations, left/right, vector/matrix "
-        "right-hand sides (incl. zero / sparse ones), all tags, rank deficiencies 0..n for pstrf: whenever FE_INEXACT stays clear the C++ result must equal the "
-        "model's; otherwise, and for the OpenBLAS-backed build (-DREMORA_USE_CBLAS via Shark.h), an in-harness residual oracle in long "
-        "double (|A x - b| <= 1e-9 (|A||x|+|b|), L L^T, P A = L U, P^T A P = L L^T, Q D Q^T, Q^T Q = I, normal equations; NaN anywhere fails) decides. "
-        "Exercised on every run (quick tier too): every way the solve expression is written and consumed -- solve(), inv(A)%B / B%inv(A), noalias(x) += ... "
-        "(plus_assign_to), the explicit inverse evaluated as a matrix (matrix_inverse::assign_to / plus_assign_to, then a plain product), operands that are expressions (trans(At), trans(Bt), subrange), and the lazily consumed matrix solves row(expr,i), expr % e_k, expr % I "
-        "(matrix_row_optimizer / matrix_vector_prod_optimizer) -- for each of the 7 direct system tags x left/right (plus conjugate gradient), all compared with the one model X; "
-        "decomposition objects used directly and re-used (one cholesky / LU / semi-definite / eigen decomposition serving 2..5 solves of mixed side and rhs kind, "
-        "decompose() on a used object; compute_inverse_factor of the semi-definite solver, modelled (semiInverseFactor) and compared exactly, Moore-Penrose oracle A A^+ A = A); pivoted LU with ties in the pivot search; sequences of 1..5 rank-one updates on one cholesky_decomposition followed by a solve through it, update vectors drawn from the "
-        "classes dense / leading zeros / unit vector / trailing zeros / interior zeros / zero vector / scaled factor column / exactly singular result / indefinite "
-        "downdate (the last two must throw) x alpha = 1 / alpha != 1, exact and float; symmetric eigenproblems incl. repeated eigenvalues, diagonal, zero, identity, "
-        "rank-one and tridiagonal matrices."),
-  note=TRUST + "PARTIAL. Proved only on the model: everything listed in `text` as theorem. potrf_strict_correct_partial needs 'no pivot is exactly zero' "
-       "(the unrepaired (row_major,upper) kernel accepts a zero pivot: finding C02-potrf-zero-pivot-accepted, fixed in /repo). NOT theorems, exercised by the "
-       "correspondence / residual oracle only: pivoted Cholesky pstrf and the semi-definite solver incl. the least-squares clause (modelled and "
-       "compared exactly, nothing proved), the matrix-rhs forms of the LU- and Cholesky-based solves (the vector forms, left and right, are proved; the model applies them column by column), "
-       "the rewrites row/prod for the non-triangular tags (the general lemmas row_of_left_solve / prod_of_right_solve take the defining equations as hypotheses), "
-       "that update() throws exactly when the updated matrix is not positive definite (INDEPENDENT ORACLE in the harness: long-double Cholesky of the separately accumulated target, undecided within 1e-6 of singular), "
-       "conjugate gradient, symmetric eigendecomposition (INDEPENDENT ORACLE only, no model), the blocked recursions "
-       "(modelled as the unblocked loops; equality in exact arithmetic follows from trsv_unique for trsm and is otherwise established by the "
-       "exact correspondence across the block boundaries), floating-point backward-error bounds ('residual at rounding level' is measured, not proved). "
-       "The forms that go through the explicit inverse (row(expr,i), evaluated inv(A)) are only forward stable; they are generated on well-conditioned systems "
-       "(dominant power-of-two diagonal / float systems with bounded condition) so that the 1e-9 residual bound is sound. trans(solve(..)), column(solve(..),i), v % solve(..), row(inv(A),i) "
-       "do not compile in the pinned tree (findings_proposed/C02.md) and are not exercised there; a syntax-only compile probe per tree (trans_forms_level) switches the forms t/c/l (trans(solve), column(solve,k), e_i % solve) on "
-       "as soon as the transpose rewrite instantiates (evidence field transposed_solve_forms says which case applied). "
-       "Open known finding C02-cg-zero-rhs-nan (F-C02-4): conjugate gradient with a zero vector right-hand side returns NaN; the check prints KNOWN-FINDING for exactly that input class.",
-  technique="Lean 4 proofs (course-of-values recurrences, elimination invariants by induction over the steps, loop invariant of the rank-one update) + exact-mode differential correspondence with the C++ (ASan/UBSan, FE_INEXACT) + independent residual oracles",
+  text=("Theorems in exact arithmetic over Rat about executable Lean models, for every size n, every matrix / right-hand side, every tag, side and block size (no bound anywhere); "
+        "headline file Props/C02.lean, layers Lemmas/LinSolve{Props,Blocked,BlockedChol,CG,Semi,Pstrf}.lean, Lemmas/SolveExpr.lean (every theorem of these modules is an audited obligation). "
+        "TRIANGULAR: trsv_correct / trsm_correct (no zero on a divided diagonal => T x = b, x T = b, T X = B, X T = B; other triangle never read), trsv_unique; "
+        "the BLOCKED recursion trsm_recursive (Model/LinSolveBlocked.lean, block size a parameter, split as in the C++): trsmBlocked_eq_trsm (= the unblocked loop for every block size and every n), trsmBlocked_correct, trsm_recursive_correct (block 32). "
+        "CHOLESKY: potrf_correct (returns 0 => L L^T = A on the stored triangle, other triangle untouched), potrf_upper_correct, potrf_info_spec; the blocked potrf_recursive: potrfBlocked_eq (return value and factor equal the unblocked loop's, every block size), potrf_blocked_correct (end to end). "
+        "LU: getrf_correct (P A = L U for the recorded transpositions). SOLVES: solve_spd_correct / solve_spd_right_correct / solve_spd_unique, solve_lu_correct / solve_lu_right_correct, inv_prod_is_solve(_spd), the lazily consumed forms row_of_left_solve / lazy_row_left_trsm / prod_of_right_solve / prod_of_left_trsm (+ wrong-side witness). "
+        "PIVOTED CHOLESKY and the semi-definite solver: pstrf_correct (loop invariant of the right-looking pivoted factorisation: P^T A P = F F^T + Rem, Rem supported on the discarded block, its diagonal <= eps, F lower triangular with non-zero diagonal; every n, every eps, no definiteness assumed), "
+        "semi_solve_exact_of_pstrf (full rank: A x = b), semi_solve_lsq / semi_solve_lsq_of_pstrf (normal equations A (A x - b) = 0 when nothing non-zero is discarded), semi_solve_lsq_trunc (in general: least squares for A - P Rem P^T), semi_lsq_tolerance_witness (for A = diag(1, 2^-51) the modelled solver reports rank 1 and does NOT return a least-squares solution of A: the clause holds up to the numerical-rank tolerance only). "
+        "CONJUGATE GRADIENT (Model/LinSolveCG.lean: both overloads of cg_solver::cg with starting-point rule, tolerance test, iteration limit): cgVec_residual / cgCol_residual (the stored residual is b - A x; no hypothesis on A), cgVec_done_iff, cgVec_converged_residual, cgStep_orth, cgVec_conjugate / cgVec_conjugate_spd (all residuals mutually orthogonal, all directions A-conjugate, over the whole run), "
+        "cgVec_spd_done (termination within n passes for symmetric positive definite A), cg_residual_at_requested_level (|b - A x|_inf < eps). "
+        "SYSTEM TAG THROUGH THE EXPRESSION LAYER (Model/SolveExpr.lean; rule set Gen/SolveRules.lean REGENERATED from solve.hpp on every run by translate/solve_rules.py): solveTagTranspose_params / _type / _involutive, rules_preserving, "
+        "tag_state_survives_{trans,row,column,prod_vec,vec_prod,prod_mat} (the rewritten expression carries exactly the tag states of its operands, by induction over the expression), rules_sides, inv_prod_is_solve_rule / inv_prod_mat_is_solve_rule / mat_prod_inv_is_solve_rule (the inverse-product form IS the solve node with the same tag), transposedDefault_drops_state. "
+        "RANK-ONE UPDATE: cholUpdate_correct, cholUpdate_scale_correct. The square root is a parameter r required exact on the values that occur (SqrtSpec / PstrfRoot / hroot). "
+        "TIE, every run: exact correspondence (driver drv_c02 in Rat vs C++ doubles printed exactly; whenever FE_INEXACT stays clear the results must be equal) on systems built from integer factors with power-of-two diagonals, sizes 1..70 across the block sizes 4/16/20/32/64, both orientations, left/right, vector/matrix right-hand sides, all tags, rank deficiencies 0..n; the driver runs the BLOCKED trsm / potrf models; "
+        "otherwise, and for the OpenBLAS-backed build, in-harness residual oracles in long double. Exercised on every run (quick tier too): every way the solve expression is written and consumed -- solve(), inv(A)%B / B%inv(A), noalias += / -=, the explicit inverse evaluated as a matrix, expression operands, row(expr,i), column(expr,k), expr % e_k, e_i % expr, expr % I, trans(solve(..)), trans(inv(..)) -- "
+        "for each of the 7 direct system tags x left/right, and for conjugate_gradient(eps, max_iterations) with NON-DEFAULT parameters in each of these 27 forms x left/right x vector/matrix right-hand side: tolerance below the default on systems that need > 15 passes, iteration limits 1..3, small systems; "
+        "the driver evaluates the expression rewritten by the regenerated rules with the exact CG kernels (n <= 10, or <= 3 passes up to n = 40; 1e-7 relative), the harness holds an independent long-double CG (oracles: true residual <= requested eps + rounding; with a limit k on a single-solve form the result is the k-th iterate). "
+        "Decomposition objects used directly and re-used, compute_inverse_factor (Moore-Penrose oracle), pivoted LU with ties, sequences of 1..5 rank-one updates over 9 vector classes, symmetric eigenproblems of 7 matrix classes."),
+  note=TRUST + "PARTIAL. Proved only on the models: everything listed in `text` as theorem. potrf_strict_correct_partial needs 'no pivot is exactly zero' "
+       "(the unrepaired (row_major,upper) kernel accepted a zero pivot: finding C02-potrf-zero-pivot-accepted, fixed in /repo). potrfBlocked_eq needs 'the root does not vanish on a positive pivot' (RootNZ, implied by SqrtSpec). "
+       "The least-squares clause is proved with the discarded remainder explicit (semi_solve_lsq_trunc); 'Rem = 0 for an exactly rank-deficient PSD matrix and eps = 0' and 'the inner Cholesky of L^T L succeeds' (InnerCholOk; cholesky_decomposition::decompose ignores potrf's return value) are hypotheses, checked at run time by the oracles pstrf-PAPt / solve-normal-equations. "
+       "Conjugacy / termination are proved for the vector overload; for the matrix overload only the residual recurrence and the tolerance test (its columns run the same recurrence from zero). "
+       "The nesting of each rewrite rule of solve.hpp (which sub-optimizer is applied to which operand) is modelled by hand in Model/SolveExpr.lean and pinned by a skeleton comparison in the translator (any textual change of a rule body fails the run loudly); tag function and side are regenerated. "
+       "NOT theorems, exercised by the correspondence / residual oracles only: the matrix-rhs forms of the LU- and Cholesky-based solves (the vector forms are proved; the model applies them column by column), getrf's blocked recursion (modelled as the unblocked loop, tied exactly across the block boundaries), "
+       "that update() throws exactly when the updated matrix is not positive definite (independent oracle), symmetric eigendecomposition syev (INDEPENDENT ORACLE only: Q D Q^T = A, Q^T Q = I, order; no model), floating-point backward-error bounds ('residual at rounding level' is measured, not proved), the OpenBLAS/LAPACK bindings. "
+       "The forms that go through the explicit inverse (row(expr,i), evaluated inv(A)) are only forward stable; they are generated on well-conditioned systems so that the 1e-9 residual bound is sound. The harness oracle for an iteration limit knows which forms are a single solve of the given right-hand side (the identities documented in solve.hpp); "
+       "for the product forms only the model comparison speaks. A syntax-only compile probe per tree (trans_forms_level) decides whether the transposed forms t/c/l/u are compiled in (evidence field transposed_solve_forms).",
+  technique="Lean 4 proofs (course-of-values recurrences, elimination / pivoting loop invariants, block-recursion induction with uniqueness, Krylov-recurrence invariants and a dimension argument for CG termination, structural induction over rewritten expressions) + translator T-C02 (solve.hpp rule table -> Lean) + exact-mode differential correspondence with the C++ (ASan/UBSan, FE_INEXACT) + independent residual / reference-CG oracles",
   design="§6 C02, §14 C02")
 FINISH = dict(level="proof",
               rule="one case = one kernel / decomposition / solve call on a generated system; exact cases are built from integer "
                    "factors with power-of-two diagonals (every sqrt and division exact); a case is non-trivial if n >= 2; "
                    "distinct = distinct op text")
 LAKE_TARGETS = ["SharkVerif.Props.C02", "drv_c02"]
+
+
+# every theorem of these modules is an obligation (Props/C02.lean is the headline file and imports the others)
+PROOF_MODULES = ["SharkVerif.Props.C02", "SharkVerif.Lemmas.LinSolveProps", "SharkVerif.Lemmas.LinSolveBlocked",
+                 "SharkVerif.Lemmas.LinSolveBlockedChol", "SharkVerif.Lemmas.LinSolveCG", "SharkVerif.Lemmas.LinSolveSemi",
+                 "SharkVerif.Lemmas.LinSolvePstrf", "SharkVerif.Lemmas.SolveExpr"]
+
+
+def translate(ctx):
+    """T-C02: Gen/SolveRules.lean from solve.hpp (what every rewrite of a solve / inverse expression does with the tag and the side)"""
+    return ctx.translate("solve_rules.py")
 
 BOUNDARY = [1, 2, 3, 4, 5, 8, 15, 16, 17, 19, 20, 21, 31, 32, 33, 40, 41, 63, 64, 65, 70]
 
@@ -171,10 +170,12 @@ def gen_trsv(r, n, tol=False):
                 singular=singular and not unit)
 
 
-def gen_trsm(r, n, m):
-    upper, unit, left = r.chance(1, 2), r.chance(1, 3), r.chance(1, 2)
+def gen_trsm(r, n, m, upper=None, unit=None, left=None, consistent=False):
+    upper = r.chance(1, 2) if upper is None else upper
+    unit = r.chance(1, 3) if unit is None else unit
+    left = r.chance(1, 2) if left is None else left
     oa, ob = r.choice("rc"), r.choice("rc")
-    singular = r.chance(1, 30)
+    singular = (not consistent) and r.chance(1, 30)
     A = gen_tri_matrix(r, n, upper, unit, singular)
     T = tri_part(A, upper, unit)
     if left:
@@ -183,7 +184,9 @@ def gen_trsm(r, n, m):
     else:
         X0 = [[r.range(-3, 3) for _ in range(n)] for _ in range(m)]
         B = mm(X0, T)
-    if r.chance(1, 5):
+    if consistent:
+        pass
+    elif r.chance(1, 5):
         B = [[r.range(-5, 5) for _ in row] for row in B]
     elif r.chance(1, 5):
         vs = [sparse_vec(r, n) for _ in range(m)]
@@ -409,9 +412,10 @@ def float_tri(r, n, upper, unit, bits=8):
     return A, bits
 
 
-FORMS_ANY = "siabexy"        # every right-hand side kind (x, y: explicit inverse evaluated as a matrix)
+FORMS_ANY = "siabkexy"       # every right-hand side kind (a b: += forms, k: -= form; x, y: explicit inverse evaluated as a matrix)
 FORMS_MAT = "rjpqmn"         # lazily consumed matrix solves: matrix right-hand sides only
 FORMS_TRANS = "tcl"          # trans(solve), column(solve,k), e_i % solve: only where the transpose rewrite compiles
+FORMS_TRANS_ANY = "u"        # trans(inv(At, tag^T)) % B / B % trans(inv(..)): every right-hand side kind, same condition
 TAGS = ["spd", "semi", "lu", "tl", "tu", "tul", "tuu"]
 
 
@@ -426,7 +430,7 @@ def gen_solve(r, n, tag=None, tol=False, form=None, left=None, K=None):
     m = 1 if K == "v" else r.choice([1, 2, 3, 5, 17])
     # forms that go through rows / columns of the explicit inverse (r j x y; p q from the right: X e_k = B (A^-1 e_k))
     # are forward stable only: generated on well-conditioned systems, where the 1e-9 residual bound is sound
-    wc = form in "rjpqxyl"
+    wc = form in "rjpqxylcu"   # c from the right = B times rows of the inverse, like l from the left
     if wc and tag == "semi":
         n = min(n, 24)
     s = 0
@@ -582,17 +586,56 @@ def gen_cholseq(r, n, tol=False, vclass=None, alpha=None, k=None):
                 cfg=f"{oa}:k{k}:{classes[0]}:a{'1' if a1 == '1' else 'x'}" + ("-float" if tol else ""), vclasses=classes)
 
 
+
+# ---- conjugate gradient: the one system tag with state (epsilon, max_iterations)
+CG_EPS_TIGHT = ["1/1000000000000", "1/10000000000000"]                  # below the default 1e-10
+CG_EPS_ANY = CG_EPS_TIGHT + ["1/100000000", "1/1024", "1/10000000000", "1/1000000"]
+
+
+def cg_spd(r, n, shift=None, bits=8):
+    """symmetric positive definite A = M M^T + shift I (dyadic entries, scale 2^(2 bits)); the shift sets the condition
+    number: about 1 + 4n/(3 shift)"""
+    one = 1 << bits
+    M = [[r.range(-one, one) for _ in range(n)] for _ in range(n)]
+    A = mm(M, tr(M))
+    shift = shift or r.choice([n, max(1, n // 4), 1])
+    for i in range(n):
+        A[i][i] += shift * one * one
+    return A, 2 * bits, shift
+
+
+def gen_cg(r, n, form=None, left=None, K=None, eps=None, maxit=None, tforms=True):
+    """solve with conjugate_gradient(eps, maxit) in one of the forms; right-hand sides are dyadic with row and column
+    1-norms <= 1 (the residual of the product forms is then bounded by eps as well), zero columns with probability 1/10"""
+    left = r.chance(1, 2) if left is None else left
+    oa = r.choice("rc")
+    allmat = FORMS_ANY + FORMS_MAT + (FORMS_TRANS + FORMS_TRANS_ANY if tforms else "")
+    allvec = FORMS_ANY + (FORMS_TRANS_ANY if tforms else "")
+    if K is None:
+        K = r.choice("rc") if (form is not None and form not in allvec) else r.choice(["v", "v", "r", "c"])
+    if form is None:
+        form = r.choice(allvec if K == "v" else allmat)
+    m = 1 if K == "v" else r.choice([1, 2, 3, 5])
+    A, s, shift = cg_spd(r, n)
+    eps = eps or r.choice(CG_EPS_ANY)
+    maxit = r.choice([0, 0, 1, 2, 3, n]) if maxit is None else maxit
+    sb = 8 + max(n, m).bit_length()
+    rows, cols = (n, m) if (left or K == "v") else (m, n)
+    zc = [r.chance(1, 10) for _ in range(m)]
+    def ent(i, j):
+        k = 0 if K == "v" else (j if left else i)
+        return 0 if zc[k] else r.range(-256, 256)
+    B = [[ent(i, j) for j in range(cols)] for i in range(rows)]
+    line = f"solve cg:{eps}:{maxit} {'L' if left else 'R'} {oa} {K} {form} {n} {m} {emit(A, s)} {emit(B, sb)}"
+    kind = "eps-tight" if (maxit == 0 and eps in CG_EPS_TIGHT) else ("eps" if maxit == 0 else ("limit" if maxit < n else "limit-n"))
+    return dict(op=line, kind="tol", n=n, name="cg", form=form, rel=True,
+                cfg=f"{'L' if left else 'R'}{oa}{K}{form}:{kind}:cond{'lo' if shift == n else ('mid' if shift > 1 else 'hi')}")
+
+
 def gen_oracle_only(r, n):
     """conjugate gradient and symmetric eigendecomposition: residual oracle only"""
-    k = r.below(2)
-    oa = r.choice("rc")
-    if k == 0:
-        A, s = float_spd(r, n)
-        left = r.chance(1, 2); K = r.choice(["v", "r", "c"]); m = 1 if K == "v" else r.choice([1, 3])
-        form = r.choice(FORMS_ANY if K == "v" else FORMS_ANY + FORMS_MAT)
-        B = " ".join(("0" if r.chance(1, 10) else str(r.range(-5, 5))) for _ in range(n * m))
-        return dict(op=f"solve cg {'L' if left else 'R'} {oa} {K} {form} {n} {m} {emit(A, s)} {B}",
-                    kind="tol", n=n, name="cg", cfg=f"{'L' if left else 'R'}{oa}{K}{form}")
+    if r.chance(1, 2):
+        return gen_cg(r, n)
     return gen_syev(r, n)
 
 
@@ -640,7 +683,9 @@ def load_corpus():
                 l = l.strip()
                 if l and not l.startswith("#"):
                     t = l.split()
-                    out.append(dict(op=l, kind="corpus", n=0, name=t[0], cfg="corpus:" + fn, singular=False))
+                    iscg = t[0] == "solve" and t[1].startswith("cg:")
+                    out.append(dict(op=l, kind="tol" if iscg else "corpus", rel=iscg, n=0, name="cg" if iscg else t[0],
+                                    cfg="corpus:" + fn, singular=False))
     return out
 
 
@@ -663,6 +708,17 @@ def gen_cases(ctx):
     for n in sizes(ctx, r, 10 if q else 0):
         m = r.choice([1, 2, 3, 15, 16, 17, 33]) if r.chance(1, 2) else r.range(1, 40)
         cases.append(gen_trsm(r, n, m))
+    # the blocked recursions (block 32): second level from n = 65 (a split with start > 0), third from n = 129 --
+    # every triangular tag x side at such sizes on every run (a seeded change manifests only for lower-left /
+    # upper-right at n >= 65), consistent right-hand sides so that the comparison stays exact
+    for upper in (False, True):
+        for unit in (False, True):
+            for left in (True, False):
+                for n in ([r.range(65, 70), r.choice([97, 129, 131])] if q else [65, 66, 70, 96, 97, 129, 131, 160]):
+                    cases.append(gen_trsm(r, n, r.choice([1, 2, 3, 17]), upper=upper, unit=unit, left=left, consistent=True))
+    for n in ([r.range(65, 70), 97] if q else [65, 66, 70, 96, 97, 129, 131]):
+        cases.append(gen_potrf(r, n))
+        cases.append(gen_potrf(r, n, notpd=True))
     for n in sizes(ctx, r, 8 if q else 0):
         cases.append(gen_potrf(r, n))
         if r.chance(1, 3):
@@ -690,9 +746,19 @@ def gen_cases(ctx):
     for n in sizes(ctx, r, 25 if q else 0) * (1 if q else 3):
         cases.append(gen_solve(r, n))
     # every form of writing / consuming the solve expression x every system tag x both sides, on every run
-    tforms = FORMS_TRANS if trans_forms_available(ctx) else ""
-    ctx.cov["transposed_solve_forms"] = (f"exercised (t c l), probe level {trans_forms_level(ctx)}" if tforms
+    tforms = (FORMS_TRANS + FORMS_TRANS_ANY) if trans_forms_available(ctx) else ""
+    ctx.cov["transposed_solve_forms"] = (f"exercised (t c l u), probe level {trans_forms_level(ctx)}" if tforms
                                          else "not instantiable in this tree (compile probe): not exercised")
+    # conjugate gradient with NON-DEFAULT parameters in every form x both sides x vector / matrix right-hand side:
+    # a tolerance below the default on systems that need > 15 passes (the residual must reach the requested level),
+    # iteration limits 1..3 (the result must be that iterate), any tolerance on small systems (compared with the exact model)
+    for form in FORMS_ANY + FORMS_MAT + tforms:
+        for left in (True, False):
+            for K in (["v"] if False else (["v", r.choice("rc")] if form in FORMS_ANY + FORMS_TRANS_ANY else [r.choice("rc")])):
+                for rep in range(1 if q else 3):
+                    cases.append(gen_cg(r, r.range(20, 36), form=form, left=left, K=K, eps=r.choice(CG_EPS_TIGHT), maxit=0, tforms=bool(tforms)))
+                    cases.append(gen_cg(r, r.range(3, 10) if rep == 0 else r.range(11, 40), form=form, left=left, K=K, maxit=r.choice([1, 2, 3]), tforms=bool(tforms)))
+                    cases.append(gen_cg(r, r.choice([1, 2, 3, 4, 5, 6, 7, 8]), form=form, left=left, K=K, maxit=r.choice([0, 0, 0, 8]), tforms=bool(tforms)))
     for form in FORMS_ANY + FORMS_MAT + tforms:
         for tag in TAGS:
             for left in (True, False):
@@ -787,7 +853,7 @@ def compare(case, impl, model, blas):
         return "MISMATCH", f"value count differs: {len(vi)} vs {len(vm)}"
     if any(v is None for v in vi):
         return "MISMATCH", "nan/inf in C++ result"
-    scale = max([abs(v) for v in vm] + [Fraction(1)])
+    scale = max([abs(v) for v in vm] + [Fraction(1, 10 ** 30) if case.get("rel") else Fraction(1)])
     worst = max([abs(a - b) for a, b in zip(vi, vm)] + [Fraction(0)])
     if worst > Fraction(1, 10 ** 7) * scale:
         return "MISMATCH", f"toleranced comparison fails: max abs diff {float(worst):.3g} at scale {float(scale):.3g}"
@@ -966,7 +1032,8 @@ def run(ctx):
                     "OpenBLAS/LAPACK bindings are observed through the residual oracle only"]
     ctx.assumptions += ["systems respect the documented preconditions (square, matching sizes; SPD / PSD / full rank as the tag says)",
                         "sqrt is a parameter r of the model with r s * r s = s and r s > 0 for s > 0"]
-    ctx.prove(["SharkVerif.Props.C02"])
+    translate(ctx)
+    ctx.prove(PROOF_MODULES)
     if not ctx.quick:
         ctx.leanchecker(["SharkVerif.Props.C02"])
     exe, exeb = build(ctx)
@@ -981,6 +1048,16 @@ def run(ctx):
         ctx.hist("size_n", c["n"] if c["n"] < 4 else f"{c['n'] // 8 * 8}-{c['n'] // 8 * 8 + 7}")
         ctx.hist("config", f"{c['name']}:{c['cfg']}")
         ctx.hist("kind", c["kind"])
+    for c in cases:
+        if c["name"] == "cg" and c["op"].startswith("solve cg:"):
+            t = c["op"].split()
+            _, eps, mi = t[1].split(":")
+            ctx.hist("cg_epsilon", eps)
+            ctx.hist("cg_max_iterations", mi if int(mi) < 4 else ("n" if int(mi) == int(t[6]) else "4+"))
+            ctx.hist("cg_form_side_rhs", f"{t[5]}{t[2]}{t[4]}")
+            ctx.hist("cg_size", t[6] if int(t[6]) < 4 else f"{int(t[6]) // 8 * 8}-{int(t[6]) // 8 * 8 + 7}")
+            nb = int(t[6]) * int(t[6])
+            ctx.hist("cg_rhs", "zero" if all(x == "0" for x in t[8 + nb:]) else "nonzero")
     ctx.cov["evaluations"] = len(cases)
     ctx.cov["distinct_nontrivial"] = len({c["op"] for c in cases if c["n"] >= 2})
     for c in cases[len(corpus):len(corpus) + 3]:
